@@ -272,6 +272,34 @@ class Checker:
         return total_checked
 
 
+def dangling_refs(doc):
+    out = []
+
+    def walk(node, ptr):
+        if isinstance(node, dict):
+            r = node.get("$ref")
+            if isinstance(r, str) and r.startswith("#/"):
+                cur = doc
+                ok = True
+                for part in r[2:].split("/"):
+                    part = part.replace("~1", "/").replace("~0", "~")
+                    if isinstance(cur, dict) and part in cur:
+                        cur = cur[part]
+                    else:
+                        ok = False
+                        break
+                if not ok:
+                    out.append((ptr, r))
+            for k, v in node.items():
+                walk(v, ptr + "/" + str(k))
+        elif isinstance(node, list):
+            for i, v in enumerate(node):
+                walk(v, "%s/%d" % (ptr, i))
+
+    walk(doc, "")
+    return out
+
+
 def run_lines(lines, rep, seed, n_inst):
     same_named = []
     for line in lines:
@@ -290,6 +318,13 @@ def run_lines(lines, rep, seed, n_inst):
             rep.inconclusive("dynamic schema refused at registration: " + line["refused"][:80])
             continue
         doc = normalise_numbers(line["document"])
+        # every reference in the published document resolves inside it: a schema that points
+        # at a component that was not published accepts/refuses nothing definite
+        dangling = dangling_refs(doc)
+        if dangling:
+            ck.violate("C08:published-schema-references-missing-component",
+                       {"program": line["kind"], "api": line.get("api"), "id": line.get("id"),
+                        "missing": sorted(set(r for _, r in dangling))[:10], "first_at": dangling[0][0]})
         for e in line["entries"]:
             if line["kind"] == "dyn":
                 ident = {"program": "dyn", "id": line["id"], "entry": e["name"], "raw": line["raw"]}
